@@ -480,12 +480,10 @@ class SuitKeyValue(SuitObject):
 
                         # TODO: refactoring required: workaround for multiple integrated payloads
                         if item in value and (item is suit_integrated_payloads or item is suit_integrated_dependencies):
-                            value[item].SuitIntegratedPayloadMap = {
-                                **value[item].SuitIntegratedPayloadMap,
-                                **cls._metadata.map[item]
-                                .from_cbor(cls.serialize_cbor({k: v}))
-                                .SuitIntegratedPayloadMap,
-                            }
+                            # extend the collected map in place - copying it for every payload is quadratic
+                            value[item].SuitIntegratedPayloadMap.update(
+                                cls._metadata.map[item].from_cbor(cls.serialize_cbor({k: v})).SuitIntegratedPayloadMap
+                            )
                         else:
                             value[item] = cls._metadata.map[item].from_cbor(cls.serialize_cbor({k: v}))
                     except ValueError:
